@@ -31,3 +31,65 @@ theorem keptDefs_of_nodup (ds : List (CharDef V P)) (h : (ds.map (·.typ)).Nodup
   simpa [keptDefs] using this
 
 end Hap.Db
+
+namespace Hap.Db
+open Hap
+set_option linter.unusedSectionVars false
+variable {V P : Type} [PropsLike P] [Inhabited V]
+
+theorem addCharDef_cases (acc : List (CharDef V P)) (d : CharDef V P) :
+    ((∃ k ∈ acc, k.typ = d.typ) ∧ addCharDef acc d = acc) ∨
+    ((∀ k ∈ acc, k.typ ≠ d.typ) ∧ addCharDef acc d = acc ++ [d]) := by
+  unfold addCharDef
+  by_cases h : (acc.any (fun k => k.typ == d.typ)) = true
+  · left
+    simp only [List.any_eq_true, beq_iff_eq] at h
+    exact ⟨h, by simp [List.any_eq_true, h]⟩
+  · right
+    have h' : ∀ k ∈ acc, k.typ ≠ d.typ := by
+      intro k hk e
+      exact h (by simp only [List.any_eq_true, beq_iff_eq]; exact ⟨k, hk, e⟩)
+    exact ⟨h', by simp [h]⟩
+
+/-- sequential de-duplication, whatever the split into `add_characteristic` calls: the types
+    stay pairwise distinct, the result is `acc` followed by a sublist of the new definitions
+    (order kept), and for every type the definition kept is the first one of that type -/
+theorem foldl_addCharDef_spec (ds acc : List (CharDef V P)) (h : (acc.map (·.typ)).Nodup) :
+    ((ds.foldl addCharDef acc).map (·.typ)).Nodup ∧
+    (∃ rest, ds.foldl addCharDef acc = acc ++ rest ∧ rest.Sublist ds) ∧
+    (∀ t, (ds.foldl addCharDef acc).find? (fun d => d.typ == t) = (acc ++ ds).find? (fun d => d.typ == t)) := by
+  induction ds generalizing acc with
+  | nil => exact ⟨h, ⟨[], by simp, List.Sublist.refl _⟩, fun _ => by simp⟩
+  | cons d ds ih =>
+    simp only [List.foldl_cons]
+    rcases addCharDef_cases acc d with ⟨⟨k, hk, hkt⟩, e⟩ | ⟨hno, e⟩
+    · rw [e]
+      obtain ⟨i1, ⟨rest, i2, i3⟩, i4⟩ := ih acc h
+      refine ⟨i1, ⟨rest, i2, i3.cons _⟩, ?_⟩
+      intro t
+      rw [i4 t, List.find?_append, List.find?_append, List.find?_cons]
+      by_cases ht : d.typ = t
+      · -- the type is already present in acc: the search never reaches d
+        have : (acc.find? (fun d => d.typ == t)).isSome := by
+          rw [List.find?_isSome]; exact ⟨k, hk, by simp [hkt, ht]⟩
+        cases hf : acc.find? (fun d => d.typ == t) with
+        | none => rw [hf] at this; cases this
+        | some x => simp
+      · have : (d.typ == t) = false := by simpa using ht
+        simp [this]
+    · rw [e]
+      have hn : ((acc ++ [d]).map (·.typ)).Nodup := by
+        simp only [List.map_append, List.map_cons, List.map_nil, List.nodup_append]
+        refine ⟨h, by simp, ?_⟩
+        intro a ha b hb
+        simp only [List.mem_singleton] at hb
+        subst hb
+        simp only [List.mem_map] at ha
+        obtain ⟨k, hk, rfl⟩ := ha
+        exact hno k hk
+      obtain ⟨i1, ⟨rest, i2, i3⟩, i4⟩ := ih (acc ++ [d]) hn
+      refine ⟨i1, ⟨d :: rest, by rw [i2]; simp, i3.cons_cons _⟩, ?_⟩
+      intro t
+      rw [i4 t]; simp [List.append_assoc]
+
+end Hap.Db
